@@ -185,6 +185,15 @@ def workers():
         return 4
 
 
+def room(counter, cls, per_class=8):
+    """Per-class cap for recorded failures: True while fewer than per_class
+    failures of class `cls` were recorded in `counter` (a dict).  A single
+    global cap lets frequent known-finding cases crowd out a new failure."""
+    k = repr(cls)
+    counter[k] = counter.get(k, 0) + 1
+    return counter[k] <= per_class
+
+
 class Hang(BaseException):
     """Raised inside a work item by the per-item watchdog timer."""
 
